@@ -241,7 +241,7 @@ func init() {
 	register(&op{
 		name: "K/babybear/SIS",
 		gen: func(t *rapid.T) ([][]byte, []string, bool) {
-			cfg := rapid.SampledFrom([][2]int{{9, 16}, {9, 8}, {6, 16}, {6, 8}, {2, 16}, {3, 8}, {5, 16}}).Draw(t, "cfg")
+			cfg := rapid.SampledFrom([][2]int{{9, 16}, {9, 16}, {9, 16}, {9, 8}, {6, 16}, {6, 8}, {2, 16}, {3, 8}, {5, 16}}).Draw(t, "cfg") // the 512/16 instance has its own kernels: weight 3
 			maxN := rapid.SampledFrom([]int{1, 7, 64, 256, 300, 512, 1024}).Draw(t, "max")
 			n := rapid.OneOf(rapid.IntRange(0, maxN), rapid.Just(maxN), rapid.Just(maxN+1)).Draw(t, "n")
 			// the output slice is caller-owned: fresh (zero) or holding earlier contents (e.g. a previous hash)
@@ -253,6 +253,13 @@ func init() {
 			prevN := 0
 			if prev != 0 {
 				prevN = rapid.OneOf(rapid.IntRange(0, maxN), rapid.IntRange(n, maxN+1)).Draw(t, "prev_n")
+				if n%256 != 0 && n%256 != 255 && rapid.Bool().Draw(t, "prev_longer_tail") {
+					// constructed: the earlier message ends in a longer partial block of 256 than this one
+					prevN = 256*rapid.IntRange(0, maxN/256).Draw(t, "prev_blk") + rapid.IntRange(n%256+1, 255).Draw(t, "prev_tail")
+					for prevN > maxN && prevN >= 256 {
+						prevN -= 256
+					}
+				}
 				if prevN > maxN {
 					prevN = maxN
 				}
